@@ -35,6 +35,9 @@ pub mod ffi {
     pub struct Tr(pub u32);
     #[diplomat::opaque]
     pub struct Holder(pub Vec<Box<dyn Fn(u32) -> u32>>, pub u32);
+    /// keeps callbacks through a shared reference (interior mutability)
+    #[diplomat::opaque]
+    pub struct Shared(pub std::cell::RefCell<Vec<Box<dyn Fn(u32) -> u32>>>, pub u32);
     #[diplomat::out]
     pub struct OutT { pub a: Box<Tr>, pub b: Option<Box<Tr>>, pub n: u32 }
     pub struct WithSlice { pub n: u8 }
@@ -53,6 +56,8 @@ pub mod ffi {
         pub fn take_opt_slice(&self, v: Option<Box<[u8]>>) -> u32 { v.map(|v| v.len() as u32 + 1).unwrap_or(0) }
         pub fn take_opt_u16(&self, v: Option<Box<[u16]>>) -> u32 { v.map(|v| v.len() as u32 + 1).unwrap_or(0) }
         pub fn take_cb(&self, f: impl Fn(u32) -> u32) -> u32 { f(self.0) }
+        pub fn cb_then_str(&self, f: impl Fn(u32) -> u32, s: &str) -> u32 { f(self.0) + s.len() as u32 }
+        pub fn str_then_cb(&self, s: &str, f: impl Fn(u32) -> u32) -> u32 { f(self.0) + s.len() as u32 }
         pub fn write_id(&self, w: &mut DiplomatWrite) { let _ = write!(w, "id={}", self.0); }
         pub fn write_res(&self, ok: bool, w: &mut DiplomatWrite) -> Result<(), Box<Tr>> { let _ = write!(w, "x{}", self.0); if ok { Ok(()) } else { Err(Box::new(Tr(self.0 + 3000))) } }
     }
@@ -60,6 +65,12 @@ pub mod ffi {
         pub fn new(id: u32) -> Box<Holder> { Box::new(Holder(Vec::new(), id)) }
         pub fn keep(&mut self, f: impl Fn(u32) -> u32 + 'static) { self.0.push(Box::new(f)); }
         pub fn call_all(&self) -> u32 { self.0.iter().map(|f| f(self.1)).sum() }
+    }
+    impl Shared {
+        pub fn new(id: u32) -> Box<Shared> { Box::new(Shared(std::cell::RefCell::new(Vec::new()), id)) }
+        pub fn keep(&self, f: impl Fn(u32) -> u32 + 'static) { self.0.borrow_mut().push(Box::new(f)); }
+        pub fn call_all(&self) -> u32 { self.0.borrow().iter().map(|f| f(self.1)).sum() }
+        pub fn count(&self) -> u32 { self.0.borrow().len() as u32 }
     }
 }
 '''
@@ -278,11 +289,136 @@ def expected(h):
     return s + m.finish()
 
 
+DRIVER_CPP = r'''
+#include <cstdio>
+#include <cstdlib>
+#include <cstring>
+#include <memory>
+#include <string>
+#include <string_view>
+#include <vector>
+#include "Tr.hpp"
+#include "Holder.hpp"
+#include "Shared.hpp"
+// histories over the C++ API of callbacks: K keep (&mut self), S keep (&self), A call all kept, T transient, U callback then valid str,
+// V callback then ill-formed str, W str then callback (ill-formed), X drop the holders.  The callable owns a copy of a shared token:
+// tok.use_count() - 1 = number of copies of the callable alive anywhere (inside Rust, inside a leaked wrapper, ...).
+int main() {
+    char line[256];
+    while (fgets(line, sizeof line, stdin)) {
+        auto tok = std::make_shared<int>(0);
+        int calls = 0;
+        auto tr = Tr::new_(5);
+        auto ho = Holder::new_(7);
+        auto sh = Shared::new_(7);
+        int kept = 0;          // what the reference model says Rust holds
+        bool trust = true;     // false once the live count disagrees: stored callbacks are then not invoked (that would be UB)
+        char* p = strtok(line, " \n");
+        printf("SEQ %s |", p);
+        while ((p = strtok(NULL, " \n"))) {
+            auto cb = [tok, &calls](uint32_t x) -> uint32_t { calls++; return x + 1; };
+            switch (p[0]) {
+            case 'K': ho->keep(cb); kept++; break;
+            case 'S': sh->keep(cb); kept++; break;
+            case 'T': printf(" t=%u", tr->take_cb(cb)); break;
+            case 'U': { auto r = tr->cb_then_str(cb, "ab"); printf(" u=%s", r.is_ok() ? std::to_string(std::move(r).ok().value()).c_str() : "utf8err"); break; }
+            case 'V': { auto r = tr->cb_then_str(cb, std::string_view("\xff\xfe", 2)); printf(" v=%s", r.is_ok() ? "ok" : "utf8err"); break; }
+            case 'W': { auto r = tr->str_then_cb(std::string_view("\xc3", 1), cb); printf(" w=%s", r.is_ok() ? "ok" : "utf8err"); break; }
+            case 'A': if (trust) printf(" a=%u", ho->call_all() + sh->call_all()); else printf(" a=skipped"); break;
+            case 'X': ho = Holder::new_(7); sh = Shared::new_(7); kept = 0; break;   // the old holders are destroyed here
+            default: printf(" ?%s", p);
+            }
+            long live = tok.use_count() - 1 - 0;
+            // (the local `cb` of this iteration is gone at this point only after the switch's scope; count it out)
+            printf(" live=%ld", live - 1);
+            if (live - 1 != kept) trust = false;
+        }
+        ho.reset(); sh.reset(); tr.reset();
+        printf(" | end live=%ld calls=%d\n", (long)tok.use_count() - 1, calls);
+        fflush(stdout);
+    }
+    printf("DONE\n");
+    return 0;
+}
+'''
+
+CPP_OPS = "KSTUVWAX"
+
+
+def cpp_expected(h):
+    kept = calls = 0
+    s = ""
+    for op in h:
+        if op in "KS":
+            kept += 1
+        elif op == "T":
+            calls += 1
+            s += " t=6"
+        elif op == "U":
+            calls += 1
+            s += " u=8"
+        elif op == "V":
+            s += " v=utf8err"
+        elif op == "W":
+            s += " w=utf8err"
+        elif op == "A":
+            s += " a=%d" % (8 * kept)
+            calls += kept
+        elif op == "X":
+            kept = 0
+        s += " live=%d" % kept
+    return s + " | end live=0 calls=%d" % calls
+
+
+def cpp_callback_half(rep, tier, d, lib):
+    """every history up to the depth over the callback operations of the generated C++ API, under ASan: the number of live copies of
+    the callable after every call must equal what Rust is supposed to hold, and none may survive the holders"""
+    hpp = os.path.join(d, "cpp")
+    shutil.rmtree(hpp, ignore_errors=True)
+    q = run_tool("cpp", os.path.join(d, "src", "lib.rs"), hpp)
+    if q.returncode != 0:
+        raise MachineryError("cpp backend failed on c03g crate: " + q.stderr[-2000:])
+    wd = workdir("C03gpp")
+    cp = os.path.join(wd, "driver.cpp")
+    open(cp, "w").write(DRIVER_CPP)
+    exe = os.path.join(wd, "driver")
+    p = subprocess.run(["g++", "-std=c++17", "-O0", "-g", "-w", "-fsanitize=address", "-I", hpp, cp, lib, "-o", exe, "-lpthread", "-ldl", "-lm"],
+                       stdout=subprocess.PIPE, stderr=subprocess.PIPE, text=True)
+    if p.returncode != 0:
+        raise MachineryError("c03g C++ driver does not compile: " + p.stderr[-3000:])
+    depth = 3 if tier == "quick" else 5
+    hist = [h for n in range(1, depth + 1) for h in itertools.product(CPP_OPS, repeat=n)]
+    env = dict(os.environ)
+    env["ASAN_OPTIONS"] = "detect_leaks=1:exitcode=99:abort_on_error=0"
+    inp = "".join("%d %s\n" % (i, " ".join(h)) for i, h in enumerate(hist))
+    r = subprocess.run([exe], input=inp, stdout=subprocess.PIPE, stderr=subprocess.PIPE, text=True, env=env, timeout=1800)
+    lines = r.stdout.splitlines()
+    bad = 0
+    for i, h in enumerate(hist):
+        want = "SEQ %d |%s" % (i, cpp_expected(h))
+        got = lines[i] if i < len(lines) else None
+        if got != want:
+            bad += 1
+            if got is None:
+                m = re.search(r"ERROR: AddressSanitizer: ([\w-]+)", r.stderr)
+                rep.violation("C03g|cpp|%s|ops=%s" % (m.group(1) if m else "crash", "".join(sorted(set(h)))), {"history": h, "stderr": r.stderr[-2500:]},
+                              "history %s through the generated C++ API crashed (%s)" % ("".join(h), m.group(1) if m else "crash"))
+                break
+            rep.violation("C03g|cpp|callable-copies|ops=%s" % "".join(sorted(set(h))), {"history": "".join(h), "expected": want, "observed": got},
+                          "C++ API history %s: expected `%s` observed `%s`" % ("".join(h), want[:160], got[:160]))
+            if bad > 12:
+                break
+    if r.returncode != 0 and not bad:
+        rep.violation("C03g|cpp|leak-or-asan-at-exit", {"rc": r.returncode, "stderr": r.stderr[-2500:]}, "the C++ callback driver ended with an ASan / LSan report")
+    return {"cpp_callback_histories": len(hist), "cpp_depth": depth, "cpp_ops": CPP_OPS}
+
+
 def generated_half(rep, tier):
     build_tool()
     d, lib, p = F.build_crate("c03g", CRATE_RS)
     if p.returncode != 0:
         raise MachineryError("c03g crate does not build: " + p.stderr[-3000:])
+    cppinfo = cpp_callback_half(rep, tier, d, lib)
     hdr = os.path.join(d, "c")
     shutil.rmtree(hdr, ignore_errors=True)
     q = run_tool("c", os.path.join(d, "src", "lib.rs"), hdr)
@@ -332,4 +468,5 @@ def generated_half(rep, tier):
                 if bad > 20:
                     break
     samples = [{"generated_api_history": " ".join(h), "expected_trace": expected(h)} for h in (hist[7], hist[len(hist) // 2], hist[-1])]
-    return {"states": nstates, "transitions": sum(len(h) for h in hist), "histories": len(hist), "depth": depth, "ops": op_alphabet(tier), "samples": samples}
+    return {"states": nstates + cppinfo["cpp_callback_histories"], "transitions": sum(len(h) for h in hist) + cppinfo["cpp_callback_histories"], "histories": len(hist),
+            "depth": depth, "ops": op_alphabet(tier), "samples": samples, "cpp": cppinfo}
